@@ -181,7 +181,10 @@ Inductive dev :=
                                code: v_strict = false) *)
 | ReadMeta (pick : bool)
 | AckTick (sent : bool)     (* flushAck (ticker, or the flush at an outage); sent = the transport accepted the ack *)
-| Close.
+| Close
+| ConnClose (sent : bool).  (* the CONNECTION is closed (Conn.Close, or any connection-level close): the
+                               stream context is cancelled without a DownstreamCloseRequest; the flush loop
+                               makes its last flushAck, which reaches the transport or not (sent) *)
 
 Definition set_tabs (s : dstate) (t : dtabs) : dstate :=
   mkD (d_var s) (d_subs s) (d_cap s) t (d_bufs s) (d_inbox s) (d_metabox s) (d_closed s).
@@ -257,6 +260,9 @@ Definition dstep (s : dstate) (e : dev) : dstate * list dout :=
   | Close =>
       if d_closed s then (s, [])
       else let r := flush true s in (set_closed (fst r), snd r ++ [OCloseReq])
+  | ConnClose sent =>
+      if d_closed s then (s, [])
+      else let r := flush sent s in (set_closed (fst r), snd r)
   end.
 
 Fixpoint drun (s : dstate) (evs : list dev) : dstate * list dout :=
@@ -423,6 +429,8 @@ Definition ds_model (c : ds_case) : dstate * list dout :=
 
 Definition has_close (evs : list dev) : bool :=
   existsb (fun e => match e with Close => true | _ => false end) evs.
+Definition has_connclose (evs : list dev) : bool :=
+  existsb (fun e => match e with ConnClose _ => true | _ => false end) evs.
 
 (* ack batching is timer driven and never compared: only the concatenations are *)
 Definition ds_corr (c : ds_case) : bool :=
@@ -458,6 +466,7 @@ Fixpoint keeps_up (subs : list N) (cap : N) (q qm : N) (closed : bool) (evs : li
   | ReadMeta _ :: r => keeps_up subs cap q (qm - 1) closed r
   | AckTick _ :: r => keeps_up subs cap q qm closed r
   | Close :: r => keeps_up subs cap q qm true r
+  | ConnClose _ :: r => keeps_up subs cap q qm true r
   end.
 
 (* walk the history with a FIFO of the arrived chunks and the tables the client has shown so far *)
@@ -483,6 +492,7 @@ Fixpoint c03_walk (evs : list dev) (reads : list robs) (q : list chunk) (tu ti :
             end
       end
   | Close :: r => c03_walk r reads q tu ti true
+  | ConnClose _ :: r => c03_walk r reads q tu ti true
   | _ :: r => c03_walk r reads q tu ti closed
   end.
 
@@ -572,7 +582,7 @@ Fixpoint strictly_inc (n : N) (l : list N) : bool :=
   | x :: l' => (n <? x) && strictly_inc x l'
   end.
 Definition no_failed_send (evs : list dev) : bool :=
-  forallb (fun e => match e with AckTick false => false | _ => true end) evs.
+  forallb (fun e => match e with AckTick false | ConnClose false => false | _ => true end) evs.
 
 Definition c04_ok (c : ds_case) : bool :=
   let au := ack_ups (dc_acks c) in
